@@ -2,8 +2,11 @@
 
 Real code: `Resampler` (public API) with `resample()` running as a task on an `async_solipsism` loop whose clock is
 integer microseconds; the wall clock follows with `time_machine`.  A case fixes the period, `align_to`, the creation
-instant relative to the grid, and a script of timed actions: series added (before / while running) and removed,
-sinks that sleep (latency < p, = p, several p), the loop being blocked (= late timer).
+instant relative to the grid (also `align_to` given in a DST-observing or fixed-offset time zone, creation in the other
+DST phase or a run crossing a DST switch), and a script of timed actions: series added (before / while running) and
+removed, sinks that sleep (latency < p, = p, several p), the loop being blocked (= late timer), a source that stops or
+a sink that starts raising — `resample()` then ends with a ResamplingError and is recovered exactly as
+`ComponentMetricsResamplingActor` does (remove the failed sources, call `resample()` again).
 
 Oracle (independent of the Lean model; `resampling_gen.c07_oracle`): every timestamp handed to a sink is
 `align_to + k·period`; the first one lies in [creation, creation + 2·period]; each series receives consecutive grid
@@ -21,10 +24,12 @@ import pathlib
 from . import resampling_gen as g
 from .common import Ctx, python_flags
 
-RULE = ("timed scripts on the real Resampler: period from 1 ms to 3 h, align_to epoch/past/future/far-future/None, "
-        "creation phase {aligned, ±1 µs, half, random}, 1-4 series added at creation or mid-run / removed, sink "
-        "latencies and loop blocks of <p, =p, several p, calm tail; non-trivial = some lateness, or a series "
-        "added/removed while running; distinct by canonical JSON hash")
+RULE = ("timed scripts on the real Resampler: period from 1 ms to 3 h (incl. periods not dividing an hour), align_to "
+        "epoch/past/future/far-future/None/local time in DST and fixed-offset zones (other DST phase, run crossing a "
+        "switch), creation phase {aligned, ±1 µs, <1 ms, half, random}, 1-4 series added at creation or mid-run / "
+        "removed / failing (source stops, sink raises) with actor-style remove-and-restart, sink latencies and loop "
+        "blocks of <p, =p, several p, calm tail; non-trivial = some lateness, or a series added/removed/failing while "
+        "running; distinct by canonical JSON hash")
 
 CORPUS = pathlib.Path(__file__).resolve().parent.parent / "corpus" / "C07"
 
